@@ -156,8 +156,19 @@ def restoration_routes(repo, res, rid):
     rec(len(wr) == 1 and norm(wr[0].value) == "tuple(unsan_v)", "fixer:stores-fixed-entry", fx.where(), "the fixed entry is what is stored")
     ss = repo.mod(ARR).func("unyt_array.__setstate__")
     res.fn(ss)
-    txt = [norm(s) for s in ss.body]
-    rec("lut = _correct_old_unit_registry(lut)" in txt and txt.index("lut = _correct_old_unit_registry(lut)") < [i for i, t in enumerate(txt) if t.startswith("registry = UnitRegistry(")][0], "setstate:uses-fixer", ss.where(), "the unpickled table passes through the fixer before the registry is built")
+    # the table that reaches the UnitRegistry constructor is the fixer's result: handed over directly, or through a local
+    ctors_ = [c for c in walk_no_nested(ss.node) if isinstance(c, ast.Call) and norm(c.func) == "UnitRegistry"]
+    uses_fixer = False
+    for c in ctors_:
+        la = kwarg_of(c, "lut") or (c.args[1] if len(c.args) > 1 else None)
+        if la is None:
+            continue
+        if isinstance(la, ast.Call) and norm(la.func) == "_correct_old_unit_registry":
+            uses_fixer = True
+        elif isinstance(la, ast.Name):
+            defs_ = [n for n in walk_no_nested(ss.node) if isinstance(n, ast.Assign) and norm(n.targets[0]) == la.id and n.lineno < c.lineno]
+            uses_fixer = bool(defs_) and isinstance(defs_[-1].value, ast.Call) and norm(defs_[-1].value.func) == "_correct_old_unit_registry"
+    rec(len(ctors_) == 1 and uses_fixer, "setstate:uses-fixer", ss.where(), "the unpickled table passes through the fixer before the registry is built")
     # (ii) Unit.copy does not deep-copy sympy objects
     cp = repo.mod(UO).func("Unit.copy")
     res.fn(cp)
